@@ -1,0 +1,115 @@
+//! Verification hooks (compiled only with `--cfg ferrous_verif`): named sync points that are
+//! no-ops unless armed by a test harness, and progress counters. Nothing here changes the
+//! behaviour of an unarmed build.
+
+use std::collections::HashMap;
+use std::sync::atomic::{AtomicU64, Ordering};
+use std::sync::{Condvar, Mutex, OnceLock};
+use std::time::{Duration, Instant};
+
+/// Completed passes of the expiry sweeper (all engines of the process)
+pub static SWEEP_PASSES: AtomicU64 = AtomicU64::new(0);
+
+/// Iterations of the server event loop
+pub static LOOP_ITERS: AtomicU64 = AtomicU64::new(0);
+
+#[derive(Default)]
+struct GateState {
+    armed: bool,
+    parked: u64,
+    released: u64,
+}
+
+struct Gates {
+    state: Mutex<HashMap<String, GateState>>,
+    cond: Condvar,
+}
+
+fn gates() -> &'static Gates {
+    static G: OnceLock<Gates> = OnceLock::new();
+    G.get_or_init(|| Gates { state: Mutex::new(HashMap::new()), cond: Condvar::new() })
+}
+
+/// Sync point: returns at once unless `name` is armed; then parks the calling thread until
+/// `release(name)` (or for at most 30 s, so that a forgotten gate cannot wedge a process)
+pub fn gate(name: &str) {
+    let g = gates();
+    let mut st = g.state.lock().unwrap();
+    match st.get_mut(name) {
+        Some(s) if s.armed => {
+            s.parked += 1;
+            let ticket = s.parked;
+            g.cond.notify_all();
+            let deadline = Instant::now() + Duration::from_secs(30);
+            loop {
+                let s = st.get(name).unwrap();
+                if s.released >= ticket || !s.armed {
+                    break;
+                }
+                let now = Instant::now();
+                if now >= deadline {
+                    break;
+                }
+                st = g.cond.wait_timeout(st, deadline - now).unwrap().0;
+            }
+        }
+        _ => {}
+    }
+}
+
+/// Arm a gate: the next thread reaching it parks
+pub fn arm(name: &str) {
+    let g = gates();
+    let mut st = g.state.lock().unwrap();
+    let s = st.entry(name.to_string()).or_default();
+    s.armed = true;
+    s.released = s.parked;
+}
+
+/// Disarm a gate and let every parked thread go
+pub fn disarm(name: &str) {
+    let g = gates();
+    let mut st = g.state.lock().unwrap();
+    if let Some(s) = st.get_mut(name) {
+        s.armed = false;
+        s.released = s.parked;
+    }
+    g.cond.notify_all();
+}
+
+/// Wait until a thread is parked at `name`; false on timeout
+pub fn wait_parked(name: &str, timeout: Duration) -> bool {
+    let g = gates();
+    let deadline = Instant::now() + timeout;
+    let mut st = g.state.lock().unwrap();
+    loop {
+        if let Some(s) = st.get(name) {
+            if s.parked > s.released {
+                return true;
+            }
+        }
+        let now = Instant::now();
+        if now >= deadline {
+            return false;
+        }
+        st = g.cond.wait_timeout(st, deadline - now).unwrap().0;
+    }
+}
+
+/// Let the threads currently parked at `name` continue (the gate stays armed)
+pub fn release(name: &str) {
+    let g = gates();
+    let mut st = g.state.lock().unwrap();
+    if let Some(s) = st.get_mut(name) {
+        s.released = s.parked;
+    }
+    g.cond.notify_all();
+}
+
+pub fn sweep_passes() -> u64 {
+    SWEEP_PASSES.load(Ordering::SeqCst)
+}
+
+pub fn loop_iters() -> u64 {
+    LOOP_ITERS.load(Ordering::SeqCst)
+}
